@@ -186,6 +186,9 @@ class Engine(EngineBase):
                 if P != "C15" or rng.random() < 0.5:
                     # (a dry run with deep=True must report exactly the conflicts the real deep run meets)
                     opts["dry_run"] = False
+                elif opts["dry_run"] and rng.random() < 0.6:
+                    # ... which shows where the real run raises: without a strategy
+                    opts["strategy"] = None
                 if "/" in name:
                     opts["recursive"] = True
         if opts["exclude"] and rng.random() < 0.25:
@@ -229,6 +232,19 @@ class Engine(EngineBase):
         # interrupted init); the handle knows the state point, a real sync re-creates the file, a dry run
         # must not
         bare = entry in ("Job.sync", "sync_jobs") and pair in dst_jobs and pair in src_jobs and rng.random() < 0.12
+        if P == "C15" and rng.random() < 0.04:
+            # the plain constellation "a dry run of a deep sync meets the conflict the real run would": one
+            # file on both sides with equal size and timestamp and different content, no strategy, no filters
+            k = "0"
+            name = rng.choice([f for f in FILES if "/" not in f] or FILES)
+            for jobs, tag in ((src_jobs, "SRC"), (dst_jobs, "DST")):
+                jobs.setdefault(k, {"sp": universe[0], "doc": {}, "files": {}})
+                jobs[k]["files"][name] = [f"{tag}{k}:{name}", T0 + 50_000]
+            opts.update(deep=True, dry_run=True, strategy=None, exclude=None, selection=None, parallel=False,
+                        doc_sync=rng.choice([None, "NO_SYNC", "update"]))
+            if entry in ("Job.sync", "sync_jobs"):
+                pair = k
+            precrash, bare = None, False
         return {"knobs": knobs, "src": {"doc": spd, "jobs": src_jobs}, "dst": {"doc": dpd, "jobs": dst_jobs},
                 "opts": opts, "entry": entry, "pair": pair, "precrash": None if bare else precrash,
                 "dst_bare_sp": bare}
